@@ -2,9 +2,17 @@
 every step the query's result is compared with the same query on a freshly constructed object
 holding the same network / transform / settings (and the same explicit cell order, if one was
 requested since the last mutation). The `_cached` key set observed after every call is compared
-with what the protocol table extracted from the source (tie 1) allows."""
+with what the protocol table extracted from the source (tie 1) allows.
+
+Configurations: raster and vector objects, cache on and off; vector objects with and without a non-uniform per-node
+`area=` (the twin is built with the same area); rasters on projected grids and on geographic grids whose cell area
+differs strongly from row to row (1-4 degree rows between 60 and 88 degrees N or S), at construction or by
+set_transform; sub-basin queries (by area with thresholds of a few cells of the current georeference, Pfafstetter with
+the default / the object's km2 / a user upstream-area map) placed before and after queries that memoise the
+main-upstream cells (upstream path, classic stream order, moving average, idxs_us_main, main_upstream())."""
 import io
 import json
+import math
 import os
 import pickle
 import tempfile
@@ -13,19 +21,24 @@ import numpy as np
 from affine import Affine
 
 from common import (gen_raster_net, gen_funcgraph, gen_forest, ds_to_np, canon_idx, exc_class, VERIF,
-                    LEAN_DIR, net_features)
+                    LEAN_DIR, net_features, topo_of)
 
 OPS = []  # filled below
 RULE = ("random histories (quick: length <= 12, thorough: <= 30; plus all histories of length <= 3 over a "
         "reduced alphabet in the thorough tier) over ~35 queries and 6 mutators (order_cells, add_pits, "
         "repair_loops, set_transform, dump/load, cache toggle at construction) on Flwdir and FlwdirRaster; "
+        "vector objects with and without a non-uniform per-node `area=` (twin built with the same area), rasters "
+        "built / moved to geographic grids of 1-4 degree rows between 60 and 88 degrees N or S (cell area varies "
+        "strongly with the row), sub-basin queries (area thresholds at the scale of the cell area, Pfafstetter with "
+        "own / km2 / user upstream-area maps) before and after queries that memoise the main-upstream cells; "
         "non-trivial = history with >= 1 mutator or >= 2 queries sharing a cache key; distinct = SHA-1 of "
         "(class, network, history)")
 
 CACHE_KEYS = {"rank": "rank", "isvalid": "rank", "nnodes": "rank", "idxs_us_main": "idxs_us_main",
               "main_upstream": "idxs_us_main", "stream_order": "strord", "path_up": "idxs_us_main",
               "upstream_area_m2": "area", "area": "area", "distnc": "distnc", "subgrid_rivlen_m": "distnc",
-              "moving_average": "idxs_us_main", "subbasins_streamorder": "strord", "subbasins_area": "idxs_us_main"}
+              "moving_average": "idxs_us_main", "subbasins_streamorder": "strord", "subbasins_area": "idxs_us_main",
+              "subbasins_pfafstetter": "idxs_us_main"}
 
 
 # ---------------------------------------------------------------------------------------------
@@ -63,12 +76,24 @@ def _relabel(a):
     return tuple(out)
 
 
+# A save/load round trip of a vector object built with `area=` loses the area (Flwdir._dict holds the network only).
+# PF_C12_DUMP_AREA=1: judged by the property text (the loaded object must answer like a fresh object holding the same
+# network AND area): `spec` failure with the mechanism signature below (see classify). Default: the harness models the
+# code (the loaded object holds no area) and counts the observation.
+# Since fix afe1ea5 in /repo (F12e) the area survives the round trip: judged strictly (PF_C12_DUMP_AREA=0 restores the
+# old modelling of the defect, for replaying old trees).
+STRICT_DUMP_AREA = os.environ.get("PF_C12_DUMP_AREA", "1") == "1"
+SIG_DUMP_AREA = "dumpload-drops-vector-area"
+OBSERVED = {}
+
+
 class Obj:
     """a real object + the abstract state needed to build a fresh twin"""
 
-    def __init__(self, cls, ds, shape, dtype, cache, transform, latlon):
+    def __init__(self, cls, ds, shape, dtype, cache, transform, latlon, area=None, area_dtype="float64"):
         self.cls, self.shape, self.dtype, self.cache = cls, shape, dtype, cache
         self.transform, self.latlon = transform, latlon
+        self.area, self.area_dtype = area, area_dtype   # vector objects: the per-node area handed to the constructor
         self.order = None
         self.real = self._build(ds_to_np(ds, dtype))
 
@@ -77,6 +102,9 @@ class Obj:
         from pyflwdir.flwdir import Flwdir
         if self.cls == "raster":
             return FlwdirRaster(idxs_ds, self.shape, "d8", transform=self.transform, latlon=self.latlon, cache=self.cache)
+        if self.area is not None:
+            # every object gets its own array (the constructor keeps a reference to its argument)
+            return Flwdir(idxs_ds, area=np.array(self.area, dtype=self.area_dtype), cache=self.cache)
         return Flwdir(idxs_ds, cache=self.cache)
 
     def twin(self):
@@ -87,6 +115,32 @@ class Obj:
         if self.order is not None:
             o.real.order_cells(self.order)
         return o
+
+
+# ---------------------------------------------------------------------------------------------
+# georeferences whose cell area depends strongly on the row: geographic grids near the poles
+R_EARTH = 6371e3
+
+
+def polar_transform(rng, nrow):
+    """north-up geographic grid, rows of 1-4 degrees, all rows between 60 and 88 degrees N or S"""
+    dys = [d for d in (1, 2, 3, 4) if nrow * d <= 28]
+    if not dys:
+        return None
+    dy = rng.choice(dys)
+    span = nrow * dy
+    top = rng.randint(60 + span, 88) if rng.random() < 0.5 else -rng.randint(60, 88 - span)
+    return [rng.choice([1, 1, 2, 4, 0.5]), 0, rng.choice([0, 10, -120]), 0, -dy, top]
+
+
+def cell_km2(transform, latlon, nrow):
+    """harness' own cell area [km2] of the middle row (only used to put thresholds at the scale of the data)"""
+    a, e, f = float(transform[0]), float(transform[4]), float(transform[5])
+    if not latlon:
+        return abs(a * e) / 1e6
+    lat = f + e * (nrow // 2 + 0.5)
+    l1, l2 = math.radians(lat - abs(e) / 2), math.radians(lat + abs(e) / 2)
+    return abs(R_EARTH ** 2 * math.radians(abs(a)) * (math.sin(l2) - math.sin(l1))) / 1e6
 
 
 def _field(rng, n, kind):
@@ -101,21 +155,26 @@ def _field(rng, n, kind):
     raise KeyError(kind)
 
 
-def gen_op(rng, o, n, valid):
-    """returns (name, args-dict (JSON-able), kind) ; kind in query|mutator"""
+def gen_op(rng, o, n, valid, force=None):
+    """returns (name, args-dict (JSON-able), kind) ; kind in query|mutator. `o` carries the georeference the object has
+    at this point of the history (thresholds are put at the scale of its cell area)."""
     raster = o.cls == "raster"
     queries = ["rank", "isvalid", "nnodes", "idxs_pit", "idxs_seq", "idxs_us_main", "main_upstream",
                "n_upstream", "stream_order", "upstream_area", "accuflux", "path", "fillnodata", "downstream",
                "upstream_sum", "moving_average", "dem_adjust", "area", "distnc"]
     if raster:
         queries += ["basins", "subbasins_streamorder", "subbasins_area", "upstream_area_unit", "stream_distance",
-                    "snap", "hand", "streams", "outflow_idxs", "subgrid_rivlen", "ucat_area", "to_array_nextxy"]
+                    "snap", "hand", "streams", "outflow_idxs", "subgrid_rivlen", "ucat_area", "to_array_nextxy",
+                    "subbasins_pfafstetter"]
     mutators = ["order_cells", "add_pits", "repair_loops", "dumpload"] + (["set_transform"] if raster else [])
-    if rng.random() < 0.28:
+    if force is not None:
+        name = force
+    elif rng.random() < 0.28:
         name = rng.choice(mutators)
     else:
         name = rng.choice(queries)
     a = {}
+    km2 = cell_km2(o.transform, o.latlon, o.shape[0]) if raster else 1.0
     if name == "main_upstream":
         a["uparea"] = None if rng.random() < 0.5 else [float(rng.randint(1, 50)) for _ in range(n)]
     elif name == "stream_order":
@@ -150,7 +209,22 @@ def gen_op(rng, o, n, valid):
     elif name == "subbasins_streamorder":
         a["min_sto"] = rng.choice([-2, 1, 2])
     elif name == "subbasins_area":
-        a["area_min"] = rng.choice([1, 2, 4])
+        # threshold [km2]: a few cells of the current georeference (so that tributaries and inter-basins on both
+        # sides of it exist), or a fixed small number
+        a["area_min"] = rng.choice([1, 2, 4]) if rng.random() < 0.3 else km2 * rng.choice([0.5, 1.5, 1.5, 2.5, 3.5, 5.5, 8.5])
+    elif name == "subbasins_pfafstetter":
+        a["depth"] = rng.choice([1, 1, 2])
+        # upstream-area map: the default (cells), the object's own km2 map, or a user map (upstream sum of weights)
+        u = rng.random()
+        if u < 0.35:
+            a["uparea"] = None
+            a["upa_min"] = rng.choice([0.0, 1.5, 2.5])
+        elif u < 0.75:
+            a["uparea"] = "km2"
+            a["upa_min"] = km2 * rng.choice([0.0, 0.0, 1.5, 2.5])
+        else:
+            a["uparea"] = [rng.randint(1, 40) / 4 for _ in range(n)]
+            a["upa_min"] = rng.choice([0.0, 0.0, 6.0])
     elif name == "upstream_area_unit":
         a["unit"] = rng.choice(["m2", "km2", "ha", "cell"])
     elif name == "stream_distance":
@@ -175,7 +249,11 @@ def gen_op(rng, o, n, valid):
         res = rng.choice([(1, -1), (2, -2), (3, -4), (0.5, -0.25), (10, -10)])
         a["transform"] = [res[0], 0, rng.choice([0, 5]), 0, res[1], rng.choice([0, 40])]
         a["latlon"] = rng.random() < 0.3 and abs(res[1]) <= 4
-        if rng.random() < 0.2:
+        pt = polar_transform(rng, o.shape[0]) if rng.random() < 0.3 else None
+        if pt is not None:
+            # geographic grid near a pole: the cell area differs strongly from row to row
+            a["transform"], a["latlon"] = pt, True
+        elif rng.random() < 0.2:
             # a georeference that differs from the current one by very little (sub-millimetre cells, a shift of a few
             # micro-units): still another transform
             t = o.transform
@@ -190,6 +268,21 @@ def gen_op(rng, o, n, valid):
             a["transform"] = [t.a, t.b, t.c, t.d, t.e, t.f]
             a["latlon"] = (not o.latlon) and abs(t.e) <= 4
     return name, a, ("mutator" if name in mutators else "query")
+
+
+def own_upsum(f, weights):
+    """user-made upstream-area map: the harness' own upstream sum of per-cell weights on the object's current network
+    (-9999 at cells that reach no pit)"""
+    n = int(f.size)
+    ds = canon_idx(f.idxs_ds, n)
+    seq = topo_of(ds)
+    acc = [-9999.0] * n
+    for i in seq:
+        acc[i] = float(weights[i])
+    for i in reversed(seq):
+        if ds[i] != i:
+            acc[ds[i]] += acc[i]
+    return np.array(acc, dtype=np.float64)
 
 
 def apply(o, name, a):
@@ -245,6 +338,14 @@ def apply(o, name, a):
     if name == "subbasins_area":
         m, idx = f.subbasins_area(a["area_min"])
         return ("partition", _relabel(m), tuple(sorted(idx.tolist())))
+    if name == "subbasins_pfafstetter":
+        upa = a["uparea"]
+        if isinstance(upa, str):
+            upa = f.upstream_area(unit=upa)
+        elif upa is not None:
+            upa = own_upsum(f, upa).reshape(shp)
+        m, idx = f.subbasins_pfafstetter(depth=a["depth"], uparea=upa, upa_min=a["upa_min"])
+        return ("pfafstetter", _canon(m), tuple(sorted(idx.tolist())))
     if name == "stream_distance":
         return _canon(f.stream_distance(mask=arr(a["mask"], bool), unit=a["unit"]))
     if name == "streams":
@@ -287,6 +388,15 @@ def apply(o, name, a):
         finally:
             os.remove(fn)
         o.cache = True  # load() constructs with the default cache=True
+        o.lost_area = False
+        if o.cls == "vector" and o.area is not None:
+            # the state dict of the vector class holds the network only: is the per-node area still there?
+            kept = np.array_equal(np.asarray(o.real.area, dtype=np.float64), np.asarray(o.area, dtype=np.float64))
+            if not kept:
+                OBSERVED["dumpload-drops-vector-area"] = OBSERVED.get("dumpload-drops-vector-area", 0) + 1
+                o.lost_area = True
+                if not STRICT_DUMP_AREA:
+                    o.area = None   # model the code that exists: the loaded object holds no area
         return "ok"
     raise KeyError(name)
 
@@ -314,7 +424,7 @@ def run_history(spec, table=None):
     """spec: dict(cls, ds, shape, dtype, cache, transform, latlon, ops=[(name,args)...]).
     returns None or a failure dict (first failing step)."""
     o = Obj(spec["cls"], spec["ds"], tuple(spec["shape"]), np.dtype(spec["dtype"]).type, spec["cache"],
-            Affine(*spec["transform"]), spec["latlon"])
+            Affine(*spec["transform"]), spec["latlon"], spec.get("area"), spec.get("area_dtype", "float64"))
     clsname = "FlwdirRaster" if spec["cls"] == "raster" else "Flwdir"
     for step, (name, a) in enumerate(spec["ops"]):
         keys_before = set(o.real._cached.keys())
@@ -330,8 +440,12 @@ def run_history(spec, table=None):
             for pn, pa in probes:
                 g1, g2 = safe_apply(o, pn, pa), safe_apply(t, pn, pa)
                 if g1 != g2:
-                    return {"step": step, "op": name, "probe": pn, "what": f"after mutator {name}, query {pn} differs from a fresh object",
+                    fail = {"step": step, "op": name, "probe": pn, "what": f"after mutator {name}, query {pn} differs from a fresh object",
                             "got": repr(g1)[:300], "fresh": repr(g2)[:300]}
+                    if name == "dumpload" and getattr(o, "lost_area", False):
+                        fail["mechanism"] = SIG_DUMP_AREA
+                        fail["what"] += " holding the same network and per-node area (the area given to Flwdir(area=) is not part of the dumped state)"
+                    return fail
         else:
             want = safe_apply(t, name, a)
             if got != want:
@@ -369,8 +483,40 @@ def shrink(spec, table):
     return dict(spec, ops=ops)
 
 
-def gen_spec(rng, tier, maxlen):
-    cls = rng.choice(["raster", "raster", "vector"])
+def gen_area(rng, n):
+    """non-uniform per-node areas, exactly summable (quarters); a few nodes dominate so that the tributary with the
+    most nodes is often not the one with the largest area"""
+    return [rng.choice([0.25, 0.5, 0.75, 1.0, 1.5, 2.0, 3.0]) if rng.random() < 0.75 else float(rng.randint(8, 60))
+            for _ in range(n)]
+
+
+def memoiser(rng, ds, n, valid):
+    """a query that needs (and, with the cache on, keeps) the main-upstream cells"""
+    pits = [i for i in valid if ds[i] == i] or valid
+    k = rng.randint(0, 4)
+    if k == 0:
+        return ("path", {"idxs": [rng.choice(pits)], "direction": "up", "max_length": None, "mask": None, "unit": "cell"})
+    if k == 1:
+        return ("stream_order", {"type": "classic", "mask": None})
+    if k == 2:
+        return ("moving_average", {"data": [rng.randint(0, 40) / 4 for _ in range(n)], "n": rng.randint(1, 2), "restrict_strord": False})
+    if k == 3:
+        return ("idxs_us_main", {})
+    return ("main_upstream", {"uparea": None})
+
+
+# configurations the first histories of every run are built with (the remaining ones are drawn at random)
+STRATA = [{"cls": "vector", "area": True, "cache": False}, {"cls": "raster", "polar": True, "cache": True, "around": True},
+          {"cls": "vector", "area": True, "cache": True}, {"cls": "raster", "polar": True, "cache": False, "around": True},
+          {"cls": "vector", "area": True, "cache": False}, {"cls": "raster", "polar": True, "cache": True, "around": True},
+          {"cls": "raster", "polar": False, "cache": True, "around": True}, {"cls": "raster", "polar": True, "cache": True, "around": True},
+          {"cls": "vector", "area": True, "cache": False}, {"cls": "raster", "polar": True, "cache": True, "around": True},
+          {"cls": "vector", "area": False, "cache": False}, {"cls": "raster", "polar": True, "cache": True, "around": True}]
+
+
+def gen_spec(rng, tier, maxlen, force=None):
+    force = force or {}
+    cls = force.get("cls") or rng.choice(["raster", "raster", "vector"])
     if cls == "raster":
         ds, shape, fam = gen_raster_net(rng, max_cells=30 if tier == "quick" else 64, loopfree=rng.random() < 0.8)
     else:
@@ -382,10 +528,25 @@ def gen_spec(rng, tier, maxlen):
         ds[next(i for i in range(n) if ds[i] != n)] = next(i for i in range(n) if ds[i] != n)
     valid = [i for i in range(n) if ds[i] != n]
     spec = {"cls": cls, "ds": ds, "shape": list(shape), "dtype": rng.choice(["int32", "int32", "int64", "uint32"]),
-            "cache": rng.random() < 0.75, "transform": [1, 0, 0, 0, -1, 0], "latlon": False, "family": fam}
+            "cache": force.get("cache", rng.random() < 0.75), "transform": [1, 0, 0, 0, -1, 0], "latlon": False, "family": fam}
     if cls == "raster" and rng.random() < 0.4:
         spec["transform"] = [rng.choice([1, 2, 3]), 0, 0, 0, -rng.choice([1, 2, 4]), rng.choice([0, 30])]
-    o = Obj(cls, ds, tuple(shape), np.dtype(spec["dtype"]).type, spec["cache"], Affine(*spec["transform"]), False)
+    if cls == "raster" and force.get("polar", rng.random() < 0.3):
+        pt = polar_transform(rng, shape[0])
+        if pt is not None:
+            spec["transform"], spec["latlon"] = pt, True
+    if cls == "vector" and force.get("area", rng.random() < 0.6):
+        spec["area"] = gen_area(rng, n)
+        spec["area_dtype"] = rng.choice(["float64", "float64", "float32"])
+    o = Obj(cls, ds, tuple(shape), np.dtype(spec["dtype"]).type, spec["cache"], Affine(*spec["transform"]), spec["latlon"],
+            spec.get("area"), spec.get("area_dtype", "float64"))
+
+    def draw(forced=None):
+        name, a, kind = gen_op(rng, o, n, valid, force=forced)
+        if name == "set_transform":   # the georeference later thresholds are scaled with
+            o.transform, o.latlon = Affine(*a["transform"]), a["latlon"]
+        return (name, a)
+
     ops = []
     if has_loops(ds):
         # traces on networks with loops are outside the documented domain (they need not end): only
@@ -393,9 +554,23 @@ def gen_spec(rng, tier, maxlen):
         for _ in range(rng.randint(0, 3)):
             ops.append((rng.choice(["rank", "isvalid", "nnodes", "idxs_pit", "n_upstream", "idxs_seq"]), {}))
         ops.append(("repair_loops", {}))
-    for _ in range(rng.randint(2, maxlen)):
-        name, a, kind = gen_op(rng, o, n, valid)
-        ops.append((name, a))
+    nrand = rng.randint(2, maxlen)
+    if cls == "raster" and force.get("around", rng.random() < (0.5 if spec["latlon"] else 0.2)):
+        # a sub-basin query before and after queries that memoise the main-upstream cells, and once more at the end
+        sub = draw(rng.choice(["subbasins_area", "subbasins_area", "subbasins_pfafstetter"]))
+        if rng.random() < 0.5:
+            ops.append(sub)
+        for _ in range(rng.randint(1, 2)):
+            ops.append(memoiser(rng, ds, n, valid))
+        ops.append(sub)
+        nrand = max(0, nrand - 4)
+        for _ in range(nrand):
+            ops.append(draw())
+        if nrand and rng.random() < 0.5:
+            ops.append(draw(sub[0]))
+    else:
+        for _ in range(nrand):
+            ops.append(draw())
     spec["ops"] = ops
     return spec
 
@@ -413,6 +588,15 @@ def has_loops(ds):
     return False
 
 
+def classify(failure):
+    """mechanism signature of a known finding (never the message alone): the first failing step is a save/load round
+    trip of a vector object after which the loaded object's `area` is no longer the area the object was built with"""
+    d = failure.get("detail") or {}
+    if d.get("mechanism") == SIG_DUMP_AREA and d.get("op") == "dumpload":
+        return SIG_DUMP_AREA
+    return None
+
+
 class HistoryTimeout(BaseException):
     pass
 
@@ -425,7 +609,7 @@ def run(ctx):
     ctx.no_watchdog()   # this check runs the implementation in worker processes / under its own alarms
     rng = ctx.rng
     table = load_table()
-    nhist = (90 if ctx.tier == "quick" else 500) * ctx.escalate
+    nhist = (110 if ctx.tier == "quick" else 500) * ctx.escalate
     maxlen = 12 if ctx.tier == "quick" else 30
     specs = []
     if ctx.replay:
@@ -447,8 +631,8 @@ def run(ctx):
         dict(base, cache=False, ops=[("rank", {}), ("stream_order", {"type": "strahler", "mask": None}), ("distnc", {}), ("idxs_us_main", {})]),
         dict(base, ops=[("order_cells", {"method": "sort"}), ("dem_adjust", {"elevtn": [3, 1, 2, 5, 0, 4]}), ("dumpload", {}), ("dem_adjust", {"elevtn": [3, 1, 2, 5, 0, 4]})]),
     ]
-    for _ in range(nhist):
-        specs.append(gen_spec(rng, ctx.tier, maxlen))
+    for k in range(nhist):
+        specs.append(gen_spec(rng, ctx.tier, maxlen, force=STRATA[k] if k < len(STRATA) else None))
     for spec in specs:
         ops = spec["ops"]
         names = [o[0] for o in ops]
@@ -456,6 +640,10 @@ def run(ctx):
         keys = [CACHE_KEYS.get(x) for x in names if CACHE_KEYS.get(x)]
         nontriv = muts >= 1 or len(keys) != len(set(keys))
         ctx.count("class:" + spec["cls"]); ctx.count("cache:" + str(spec["cache"])); ctx.count("mutators", muts)
+        if spec.get("area") is not None:
+            ctx.count("vector-with-area:cache=" + str(spec["cache"]))
+        if spec["latlon"]:
+            ctx.count("raster-built-geographic-60-88deg")
         for x in names:
             ctx.count("op:" + x)
         ctx.evaluations += 1
@@ -485,6 +673,8 @@ def run(ctx):
             small = shrink(spec, table)
             fail2 = run_history(small, table) or fail
             ctx.failures.append({"desc": small, "kind": fail2.get("kind", "spec"), "what": fail2["what"], "detail": fail2})
+    for k, v in sorted(OBSERVED.items()):
+        ctx.count(k, v)
 
 
 OPS[:] = ["history x (query|mutator)"] * 40
